@@ -653,10 +653,15 @@ static int fmt_outv (hawk_fmtout_t* fmtout, va_list ap)
 
 		case '0': /* zero pad */
 			if (flagc & FLAGC_LENMOD) goto invalid_format;
-			if (!(flagc & (FLAGC_DOT | FLAGC_LEFTADJ)))
+			if (!(flagc & (FLAGC_DOT | FLAGC_WIDTH | FLAGC_STAR1)))
 			{
-				padc = '0';
-				flagc |= FLAGC_ZEROPAD;
+				/* still among the flag characters. the left adjustment
+				 * overrides the zero padding but other flags may follow */
+				if (!(flagc & FLAGC_LEFTADJ))
+				{
+					padc = '0';
+					flagc |= FLAGC_ZEROPAD;
+				}
 				goto reswitch;
 			}
 		/* end of flags characters */
